@@ -241,6 +241,7 @@ class Aggregate:
         self.viol = []  # (result)
         self.errors = []
         self.digests = {}
+        self.sig_of = {}
         self.recheck = []
 
     def add(self, r):
@@ -269,6 +270,7 @@ class Aggregate:
             self.viol.append(r)
         if r.get("recheck"):
             self.recheck.append(r["i"])
+            self.sig_of[r["i"]] = r.get("sig")
 
 
 def write_replay(prop, tier, res, signature, message, shrunk, dirname="replays"):
@@ -379,7 +381,8 @@ def run_check(prop, tier, batch_seed, jobs, runs=None, verbose=False):
                 by_sig.setdefault(tuple(v["signature"]), []).append((r, v))
         # hash-order dependence (C03 O2): decision digests equal, results differ
         for i in hash_viol:
-            sig = ("C03", "hash-order", "result differs under another PYTHONHASHSEED")
+            cls = (agg.sig_of.get(i) or ["?"])[0]
+            sig = ("C03", "hash-order", str(cls), "result differs under another PYTHONHASHSEED")
             r = {"i": i, "seed": derive(batch_seed, prop, i), "dd": agg.digests[i][0], "rd": agg.digests[i][1], "record": None, "hashseed": [h1, h2]}
             by_sig.setdefault(sig, []).append((r, {"signature": list(sig), "message": "result digests %s vs %s under PYTHONHASHSEED %d vs %d" % (agg.digests[i][1], agg2.digests[i][1], h1, h2), "property": prop, "oracle": "hash-order"}))
         n_unlisted = 0
